@@ -259,6 +259,14 @@ def inject(draw_ints, sim, kind):
         g['edges'].append(dict(outs=[h], iouts=[], phony=False, exp=[all_outs(f)[0]], imp=[], oo=[], vals=[], restat=False, generator=False, deps='',
                                hidden=[], variant='v0', pool='', rsp=None, dd=None))
         return dict(kind=kind, header=h, consumer=key(e), via=key(f))
+    if kind == 'depslog_self':
+        # a command lists its own output among its dependencies; the deps log then records a cycle of length one
+        es = [e for e in cmds if e.get('deps') in ('gcc', 'msvc') and len(all_outs(e)) == 1 and any(i in g['srcs'] for i in e['exp'] + e['imp'])]
+        if not es:
+            return None
+        e = es[a % len(es)]
+        e['report_extra'] = [key(e)]
+        return dict(kind=kind, edge=key(e), record_first=[i for i in e['exp'] + e['imp'] if i in g['srcs']][0])
     if kind == 'phony_self':
         es = [e for e in cmds if e['phony']]
         if not es:
@@ -315,7 +323,7 @@ def inject(draw_ints, sim, kind):
     return None
 
 
-KINDS = ['manifest_exp', 'manifest_imp', 'manifest_oo', 'depfile', 'depslog', 'phony_self', 'validation_back', 'dyndep_in_cycle', 'dyndep_out_cycle',
+KINDS = ['manifest_exp', 'manifest_imp', 'manifest_oo', 'depfile', 'depslog', 'depslog_self', 'phony_self', 'validation_back', 'dyndep_in_cycle', 'dyndep_out_cycle',
          'dyndep_in_cycle', 'dyndep_out_cycle']
 
 
@@ -343,6 +351,12 @@ def run_cycle_case(probe, g, ops, inj):
             return [], labels
         labels.add('inject_' + kind)
         findings = []
+        if desc.get('record_first'):
+            # the self-reference only exists once a build has recorded it: run the statement once more (not judged)
+            sim.touch(desc['record_first'])
+            r0 = sim.invoke([desc['edge']], j=1, oracles=False)
+            if r0 is None or r0['status'] != 0:
+                return [], labels
         outs = [key(e) for e in sim.g['edges']]
         tsets = [[t] for t in outs] + [outs]
         import os
@@ -377,7 +391,7 @@ def run_cycle_case(probe, g, ops, inj):
                 break
             cyc = find_cycle(sim.g, targets, disc_all, phony_filter=not phony_err)
             labels.add('cyclic_closure' if cyc else 'acyclic_closure')
-            if cyc and kind in ('depfile', 'depslog'):
+            if cyc and kind in ('depfile', 'depslog', 'depslog_self'):
                 labels.add('cycle_via_discovered')
             if cyc and kind.startswith('dyndep') and desc.get('mid_build'):
                 labels.add('cycle_appears_mid_build')
